@@ -351,7 +351,38 @@ func (h *HarnessRun) obligationAt(e *Exec, s *State, cond *Term, id, kind, where
 		s.assume(cond)
 		return
 	}
-	r := e.pf.Check(base, nondetVars(s))
+	// constraint independence: decide the part connected to the obligation first
+	extra := base[len(s.pc):]
+	rel, rest := sliceRelevant(s.pc, extra)
+	r := e.pf.Check(append(append([]*Term(nil), rel...), extra...), nondetVars(s))
+	if r.Status == Sat && len(rest) > 0 {
+		// the rest must be satisfiable too, otherwise the path is infeasible
+		r2 := e.pf.Check(rest, nondetVars(s))
+		switch r2.Status {
+		case Unsat:
+			r = r2
+		case Sat:
+			for k, v := range r2.Model {
+				if _, ok := r.Model[k]; !ok {
+					r.Model[k] = v
+				}
+			}
+			// variables of the rest take their own witness values
+			relVars := map[string]bool{}
+			for _, c := range append(append([]*Term(nil), rel...), extra...) {
+				for _, id := range termVars(c) {
+					relVars[varNameByID(id)] = true
+				}
+			}
+			for k, v := range r2.Model {
+				if !relVars[k] {
+					r.Model[k] = v
+				}
+			}
+		default:
+			r = r2
+		}
+	}
 	switch r.Status {
 	case Unsat:
 		h.Discharged++
